@@ -54,6 +54,7 @@ fn unit(q: u64, c: u32, p: u32) -> Unit {
 /// shape: p0 = q, p1 = cold factor (0 = default 3), p2 = period (s), p3 = lemma
 ///   1: range + invariant after an arbitrary step     2: monotone in stored tokens + end points
 ///   3: saturating step never raises the stored tokens 4: idle for 2p seconds -> cold again
+///   5: the ramp from cold under the slowest saturating demand reaches the threshold within 2p + 2 s
 pub fn c08_warmup(s: Shape) {
     let q = s.p[0] as u64;
     let c = s.p[1] as u32;
@@ -126,6 +127,25 @@ pub fn c08_warmup(s: Shape) {
                 // progress: at least floor(q/c) tokens leave (or the store is empty)
                 vrt::check(stored2 == 0 || stored2 + q / ceff <= stored, "C08:no-progress-while-ramping");
             }
+        }
+        5 => {
+            // the ramp itself, for the slowest saturating demand (exactly the integer part of the allowance
+            // passes every second; by lemma 3 more passes leave fewer tokens, by lemma 2 fewer tokens allow more):
+            // starting cold, the allowance never decreases and is the threshold after 2p + 2 seconds
+            let phase = vrt::any_u64("phase", 0, 999);
+            u.calc.lock().unwrap().verif_set_state(max, sec0 * 1000);
+            let mut a = u.calc.lock().unwrap().calculate_allowed_threshold(1, 0);
+            vrt::check(a <= lo * (1.0 + 1e-6) && a >= lo * (1.0 - eps), "C08:cold-start-allowance-is-not-threshold-over-cold-factor");
+            for k in 1..=(2 * p as u64 + 2) {
+                u.read.prev.store(a as u64, Ordering::SeqCst);
+                clock::set_ns((sec0 * 1000 + k * 1000 + phase) * 1_000_000);
+                let a2 = u.calc.lock().unwrap().calculate_allowed_threshold(1, 0);
+                vrt::check(a2 >= a * (1.0 - eps), "C08:allowance-decreases-during-the-ramp");
+                vrt::check(a2 <= qf * (1.0 + eps), "C08:allowed-above-threshold");
+                a = a2;
+            }
+            vrt::cover("ramped");
+            vrt::check(a == qf, "C08:threshold-not-reached-within-2p+2-seconds");
         }
         _ => {
             // idle for at least 2p seconds: cold again
